@@ -307,19 +307,20 @@ type wgInput struct {
 }
 
 type wgObs struct {
-	ID             string       `json:"id"`
-	M              *AbsModel    `json:"m,omitempty"`
-	Structure      *wgStructure `json:"structure"`
-	BuildErr       string       `json:"builderr,omitempty"` // Build failed before AssignWeights (no structure hook call)
-	Outcomes       []*wgOutcome `json:"outcomes"`
-	Witness        []*wgOutcome `json:"witness"` // outcome of every order TLC asked for, in input order
-	Runs           int          `json:"runs"`
-	Exhaustive     bool         `json:"exhaustive"`      // all root orders were forced
-	ModelUnchanged bool         `json:"model_unchanged"` // proto.Equal + slice order before/after all builds
-	HookConsistent bool         `json:"hook_consistent"` // logged natural order replayed through the forced path gives the same outcome
-	TypePerm       []*wgOutcome `json:"typeperm,omitempty"`
-	OpPerm         []wgOpPerm   `json:"opperm,omitempty"`
-	Conc           []*wgOutcome `json:"conc,omitempty"`
+	ID                  string       `json:"id"`
+	M                   *AbsModel    `json:"m,omitempty"`
+	Structure           *wgStructure `json:"structure"`
+	BuildErr            string       `json:"builderr,omitempty"` // Build failed before AssignWeights (no structure hook call)
+	Outcomes            []*wgOutcome `json:"outcomes"`
+	Witness             []*wgOutcome `json:"witness"` // outcome of every order TLC asked for, in input order
+	Runs                int          `json:"runs"`
+	Exhaustive          bool         `json:"exhaustive"`            // all root orders were forced
+	ModelUnchanged      bool         `json:"model_unchanged"`       // proto.Equal + slice order before/after all builds
+	HookConsistent      bool         `json:"hook_consistent"`       // logged natural order replayed through the forced path gives the same outcome
+	APIStructureDiffers bool         `json:"api_structure_differs"` // the API-style protobuf of the same model gives another structure
+	TypePerm            []*wgOutcome `json:"typeperm,omitempty"`
+	OpPerm              []wgOpPerm   `json:"opperm,omitempty"`
+	Conc                []*wgOutcome `json:"conc,omitempty"`
 }
 
 type wgOpPerm struct {
@@ -519,6 +520,22 @@ func wgReplay(args []string) error {
 					}
 				}
 			}
+		}
+		// the same model shaped the way API clients write it (metadata entries only for relations with a direct assignment):
+		// structure and weights do not depend on that
+		apiAbs := *inp.M
+		apiAbs.APIStyle = true
+		apiModel := protoModel(&apiAbs)
+		for i := 0; i < 3; i++ {
+			run := buildWG(apiModel, nil)
+			if run.st != nil && obs.Structure != nil {
+				a, _ := json.Marshal(run.st)
+				b, _ := json.Marshal(obs.Structure)
+				if string(a) != string(b) {
+					obs.APIStructureDiffers = true
+				}
+			}
+			record(run.outcome)
 		}
 		if obs.Structure != nil {
 			for _, n := range obs.Structure.Nodes {
